@@ -74,7 +74,7 @@ class Generic(Case):
     name = 'C13.generic'
     uf_concrete = UFC
     bounds = ('HMAC over a stand-in hash (uninterpreted function per input length; block size 512 and 1024 bits, digest 16/20/32/64 bytes): '
-              'EVERY key length 0..2*blocksize+1 bytes, |M| in {0,1,blocksize}; key and message symbolic; setkey(K1) then setkey(K2) on one object')
+              'EVERY key length 0..2*blocksize+1 bytes, |M| in {0,1,blocksize}; key and message symbolic; histories on one object: setkey(K1);setkey(K2);mac - mac(K1);setkey(K2);mac - mac;mac (last result == fresh object)')
     stub_note = 'the hash is an uninterpreted function H_len: the obligation therefore holds for any deterministic hash with that block size'
 
     def shapes(self, tier):
@@ -87,6 +87,8 @@ class Generic(Case):
                     yield dict(bs=bs, ds=ds, kl=kl, ml=ml)
             for k1, k2 in ((3, bs + 5), (bs + 5, 3), (bs, 0), (0, bs), (bs + 1, bs + 2)):
                 yield dict(bs=bs, ds=ds, kl=k2, ml=2, k1=k1)
+                yield dict(bs=bs, ds=ds, kl=k2, ml=2, k1=k1, hist='mac-rekey-mac')
+            yield dict(bs=bs, ds=ds, kl=7, ml=2, k1=7, hist='mac-mac')
 
     def mk(self, shape, src):
         return (src.bytes('K', shape['kl']), src.bytes('M', shape['ml']), src.bytes('J', shape.get('k1', 0)))
@@ -94,7 +96,14 @@ class Generic(Case):
     def impl(self, shape, args):
         from crysp.hmac import HMAC
         h = StandIn(8 * shape['bs'], shape['ds'], self.symbolic)
-        if 'k1' in shape:
+        if shape.get('hist') == 'mac-rekey-mac':
+            o = HMAC(h, args[2])
+            o(args[2] + args[1])              # a MAC under the old key first
+            o.setkey(args[0])
+        elif shape.get('hist') == 'mac-mac':
+            o = HMAC(h, args[0])
+            o(args[2])
+        elif 'k1' in shape:
             o = HMAC(h, args[2])
             o.setkey(args[0])
         else:
